@@ -25,6 +25,7 @@ DEFAULTS = {
     'tfeatures': 'absent',     # 'absent' | 'sparse' | 'sparse_rows' | 'noind'
     'similar': True,
     'raw': True, 'raw_extra_channels': 0, 'raw_offset': 0, 'raw_dtype': 'int16', 'raw_files': 1,
+    'raw_format': 'dat',       # 'dat' | 'npy' | 'cbin' (npy / cbin: one file, no header offset)
     'templates': 'dense',      # 'dense' | 'sparse'
     'id_dtype': 'int32', 'time_dtype': 'uint64',
     'alf_samples': True,
@@ -364,6 +365,21 @@ def make_dataset(d, spec=None):
         truth['raw'] = raw
         k = int(s['raw_files'])
         cuts = [0] + [n_raw * (i + 1) // k for i in range(k)]
+        if s['raw_format'] == 'npy':
+            np.save(os.path.join(d, 'sim.npy'), raw)
+            dat_paths.append('sim.npy')
+            k = 0
+        elif s['raw_format'] == 'cbin':
+            import mtscomp
+            mtscomp.CONFIG_PATH = type(mtscomp.CONFIG_PATH)(os.path.join(d, 'no-such-mtscomp-config'))
+            tmp = os.path.join(d, 'sim_raw_tmp.bin')
+            raw.tofile(tmp)
+            mtscomp.compress(tmp, os.path.join(d, 'sim.cbin'), os.path.join(d, 'sim.ch'),
+                             sample_rate=sr, n_channels=n_dat, dtype=np.dtype(s['raw_dtype']),
+                             chunk_duration=7 / sr, n_threads=1, check_after_compress=False, quiet=True)
+            os.unlink(tmp)
+            dat_paths.append('sim.cbin')
+            k = 0
         for i in range(k):
             name = 'sim%d.dat' % i if k > 1 else 'sim.dat'
             with open(os.path.join(d, name), 'wb') as f:
